@@ -267,9 +267,14 @@ class DotProduct(Expression):
 
         result: list[Expression] = []
         for var in variables:
-            if var in left_lookup:
+            in_left = var in left_lookup
+            in_right = var in right_lookup
+            if in_left and in_right:
+                # overlapping views of one vector: both factors contribute
+                result.append(BinaryOp(left_lookup[var], right_lookup[var], "+"))
+            elif in_left:
                 result.append(left_lookup[var])
-            elif var in right_lookup:
+            elif in_right:
                 result.append(right_lookup[var])
             else:
                 result.append(Constant(0.0))
